@@ -528,7 +528,10 @@ def gate_object_reuse_inds_with_tn(mk, form, inplace, first):
 def sub_mpo(mk, name, sites, L, kind="cplx", D=2):
     """an operator network (MPO form, symbolic entries, no factorisation involved) acting on ``sites`` of ``L``"""
     n = len(sites)
-    arrays = [mk.array(f"{name}{k}", (D, 2, 2) if k in (0, n - 1) else (D, D, 2, 2), kind) for k in range(n)]
+    if n == 1:
+        arrays = [mk.array(f"{name}0", (2, 2), kind)]
+    else:
+        arrays = [mk.array(f"{name}{k}", (D, 2, 2) if k in (0, n - 1) else (D, D, 2, 2), kind) for k in range(n)]
     A = qtn.MatrixProductOperator(arrays, sites=tuple(sites), L=L)
     up = [A.upper_ind(s) for s in sites]
     lo = [A.lower_ind(s) for s in sites]
@@ -543,11 +546,14 @@ _P_OPLAZY = ([{"entry": e, "flag": f, "inplace": ip, "sites": s}
               for s in ((0, 1), (0, 2), (1, 2), (0, 1, 2))]
              + [{"entry": e, "flag": f, "inplace": ip, "sites": (0, 1)}
                 for e in ("upper", "lower", "sandwich")
-                for f in (False, True) for ip in (False, True)])
+                for f in (False, True) for ip in (False, True)]
+             # a sub-operator covering only some sites of a 3-site operator target (the other outer labels must survive)
+             + [{"entry": e, "flag": f, "inplace": False, "sites": s, "LT": 3}
+                for e in ("upper", "lower", "sandwich") for f in (False, True) for s in ((0, 2), (1,), (2, 1))])
 
 
 @obligation(PROP, params=_P_OPLAZY)
-def op_object_reuse(mk, entry, flag, inplace, sites):
+def op_object_reuse(mk, entry, flag, inplace, sites, LT=2):
     """gating with an operator NETWORK object (gate_with_op_lazy, gate_with_submpo(method='lazy'), gate_upper_/lower_/
     sandwich_with_op_lazy; flag = transpose resp. dagger; plain and inplace): value as documented; the operator object is
     untouched after every call (inplace_op is left at its default False); the same object used again - with either value
@@ -564,7 +570,7 @@ def op_object_reuse(mk, entry, flag, inplace, sites):
         before = dense_vec(x, outer)
         dense = lambda tn: dense_vec(tn, outer)
     else:
-        L = 2
+        L = LT
         x = mpo(mk, L, "cplx")
         dims = [2] * L
         outer = [x.upper_ind(i) for i in range(L)] + [x.lower_ind(i) for i in range(L)]
